@@ -276,6 +276,9 @@ let exec cs (toks : string list) (res : string) : unit =
        let allvalid = kv hr "allvalid" = "1" in
        if kv hr "same" <> "1" then bad "prop" "export_dddmp: file differs from the Rust API export";
        if (kv hc "ok" = "1") <> allvalid then bad "prop" "export_dddmp returned %s, all functions valid = %b" (kv hc "ok") allvalid;
+       (match (try Some (kv hr "hdr") with Bad _ -> None) with
+        | Some "0" -> bad "prop" "dddmp header queries differ from the header the Rust API loads: %s" hr
+        | _ -> ());
        if allvalid && not imported then begin
          (* only out of memory may make the import fail *)
          cs.oom_seen <- true;
